@@ -2,4 +2,5 @@ From MV Require Import Lib.ExtractBase C16.Model gen.Params_C16.
 From Coq Require Import ExtrOcamlBasic.
 Extraction Language OCaml.
 Extraction "c16_model" force_types code_limit code_levels handler_write payload_of logger_init add_handler
-  set_level sync_log async_log_seq aseq_step next_from min_level sinit sstep usable_of ainit astep.
+  set_level sync_log async_log_seq aseq_step next_from min_level sinit sstep usable_of ainit astep
+  code_fmtcfg builtin_format dec_pad level_name gmtime handler_emit esc_rst.
